@@ -481,3 +481,176 @@ func evalGuardBranch(r *core.Run, id, fnName string, when guard.Atom, branch str
 		r.Undecide(id, core.Key(id, fnName, branch+" branch", "effects"), r.P.FuncPos(fn), "vacuous: no state-changing effect found under "+when.Desc)
 	}
 }
+
+// ---------------------------------------------------------------- frames: an anchor function and the helpers extracted from it
+
+// frame: the anchor function itself (empty chain) or a transparent helper (a function outside the rule
+// vocabulary) reached from it through the given call instructions. Terms computed in a frame are expressed in the
+// anchor's vocabulary: the helper's parameters are replaced by the argument terms of the calls that lead to it.
+type frame struct {
+	Fn    *ssa.Function
+	Chain []ssa.CallInstruction
+	subst []string
+}
+
+func frames(r *core.Run, anchor *ssa.Function) []frame {
+	out := []frame{{Fn: anchor}}
+	for i := 0; i < len(out) && len(out) < 40; i++ {
+		fr := out[i]
+		if len(fr.Chain) >= 3 {
+			continue
+		}
+		res := r.Resolver(fr.Fn)
+		for _, b := range fr.Fn.Blocks {
+			for _, ins := range b.Instrs {
+				c, ok := ins.(ssa.CallInstruction)
+				if !ok {
+					continue
+				}
+				h := c.Common().StaticCallee()
+				if h == nil || h == fr.Fn || !r.P.Transparent(h) {
+					continue
+				}
+				ns := make([]string, len(h.Params))
+				for j, a := range c.Common().Args {
+					if j < len(ns) {
+						t := res.Of(a).String()
+						if len(fr.subst) > 0 {
+							t = guard.SubstParams(t, fr.subst)
+						}
+						ns[j] = t
+					}
+				}
+				out = append(out, frame{Fn: h, Chain: append(append([]ssa.CallInstruction{}, fr.Chain...), c), subst: ns})
+			}
+		}
+	}
+	return out
+}
+
+// Raw: the term of v in the anchor's vocabulary, memory markers kept.
+func (fr frame) Raw(r *core.Run, v ssa.Value) string {
+	t := r.Resolver(fr.Fn).Of(v).String()
+	if len(fr.subst) > 0 {
+		t = guard.SubstParams(t, fr.subst)
+	}
+	return t
+}
+
+// T: the normalised term of v in the anchor's vocabulary.
+func (fr frame) T(r *core.Run, v ssa.Value) string { return normT(fr.Raw(r, v)) }
+
+// AnchorIns: the instruction of the anchor function through which the frame is reached (the frame's own
+// instruction for the anchor frame): the position of a nested site in the anchor's control-flow graph.
+func (fr frame) AnchorIns(ins ssa.Instruction) ssa.Instruction {
+	if len(fr.Chain) > 0 {
+		return fr.Chain[0]
+	}
+	return ins
+}
+
+type deepCall struct {
+	Fr   frame
+	Call ssa.CallInstruction
+}
+
+// deepCalls: calls of the named callee in the anchor function and in the helpers extracted from it.
+func deepCalls(r *core.Run, anchor *ssa.Function, callee string) []deepCall {
+	var out []deepCall
+	for _, fr := range frames(r, anchor) {
+		for _, c := range callsIn(r, fr.Fn, callee) {
+			out = append(out, deepCall{fr, c})
+		}
+	}
+	return out
+}
+
+// Arg: anchor-vocabulary term of the i-th non-context argument as callTerm would list it.
+func (d deepCall) ArgTerms(r *core.Run) []string {
+	t := callTerm(r.Resolver(d.Fr.Fn), d.Call)
+	if t == nil {
+		return nil
+	}
+	var out []string
+	for _, a := range t.Args {
+		s := a.String()
+		if len(d.Fr.subst) > 0 {
+			s = guard.SubstParams(s, d.Fr.subst)
+		}
+		out = append(out, normT(s))
+	}
+	return out
+}
+
+// precededDeep: on every path to the (possibly nested) call site, a call of `callee` has been passed — in the
+// function that holds the site, or in one of the enclosing frames before the call that leads to it.
+func precededDeep(r *core.Run, anchor *ssa.Function, d deepCall, callee string) bool {
+	fns := []*ssa.Function{anchor}
+	for _, c := range d.Fr.Chain {
+		if h := c.Common().StaticCallee(); h != nil {
+			fns = append(fns, h)
+		}
+	}
+	for lvl := len(d.Fr.Chain); lvl >= 0; lvl-- {
+		fn := fns[lvl]
+		var at ssa.Instruction = d.Call
+		if lvl < len(d.Fr.Chain) {
+			at = d.Fr.Chain[lvl]
+		}
+		blk := blocksCallingDeep(r, fn, callee, 0)
+		if len(blk) == 0 {
+			continue
+		}
+		if blk[at.Block()] {
+			// same block: the callee's call must come first
+			for _, ins := range at.Block().Instrs {
+				if ins == at {
+					break
+				}
+				if c, ok := ins.(ssa.CallInstruction); ok {
+					if n, _ := r.Resolver(fn).CalleeName(c.Common()); n == callee {
+						return true
+					}
+					if h := c.Common().StaticCallee(); h != nil && alwaysCalls(r, h, callee, 1) {
+						return true
+					}
+				}
+			}
+			continue
+		}
+		if forwardAvoid(fn.Blocks[0], blk, nil, func(b *ssa.BasicBlock) bool { return b == at.Block() }) == nil {
+			return true
+		}
+	}
+	return false
+}
+
+// anchorTerm: a term string computed in function f, re-expressed in the vocabulary of the known function(s) f was
+// extracted from (identity for functions of the rule vocabulary). When f is reached in several ways that disagree,
+// the term is returned unchanged.
+func anchorTerm(r *core.Run, f *ssa.Function, s string) string {
+	if !r.P.Transparent(f) {
+		return s
+	}
+	out := ""
+	for _, o := range r.Owners(f) {
+		for _, fr := range frames(r, o) {
+			if fr.Fn != f {
+				continue
+			}
+			t := s
+			if len(fr.subst) > 0 {
+				t = guard.SubstParams(s, fr.subst)
+			}
+			if out == "" {
+				out = t
+			} else if out != t {
+				return s
+			}
+		}
+	}
+	if out == "" {
+		return s
+	}
+	return out
+}
